@@ -327,7 +327,13 @@ Definition step_check (p : params) (h : hstate) (o : vop) : hstate + list Z :=
                    | Some _ => if snd_ok then next s (h_live h) 0 else inr (v_violation [h_i h; -2])
                    | None => next s (h_live h) 0
                    end)
-                else inr (verdict false snd_ok (h_i h :: 0 :: flatten_pairs (firstn n (xo_agg xo))))
+                else if snd_ok then
+                  (* the answer differs from the model's but meets every clause decidable on it: a search
+                     changes no state, so record the divergence and keep judging the later queries *)
+                  inl {| h_model := s; h_live := h_live h; h_i := h_i h + 1; h_weak := h_weak h; h_impl := h_impl h;
+                         h_div := match h_div h with Some d => Some d
+                                  | None => Some (h_i h :: 0 :: flatten_pairs (firstn n (xo_agg xo))) end |}
+                else inr (verdict false false (h_i h :: 0 :: flatten_pairs (firstn n (xo_agg xo))))
             end
       end
   end.
